@@ -572,3 +572,100 @@ def t_is_ident_vec(c):
 def json_s(x):
     import json
     return json.dumps(x)
+
+
+@rule('C10b', props=['C10', 'C16', 'C04', 'C01'], floor=2, configs=('all', 'default'))
+def c10b_archetype_clone_copies_all_parts(prog):
+    """`Clone for Archetype`: on every returning path `clone` yields an archetype whose four parts come from the
+    source's — the identifier from a clone of `self.identifier`, the identifier column from a copy of the Vec rebuilt
+    from `self.entity_identifiers` with `self.length`, the component columns from `clone_components(self.components, ..,
+    self.length, ..)`, and `length` equal to `self.length` — whatever the number of component columns (an entity with
+    no components is still a row). `clone_from` stores `source.length`, copies the identifier column with a
+    write-back, and walks `clone_from_components` over (self.components, self.length, source.components,
+    source.length)."""
+    r = Result()
+    S = pathsem.strip_refs
+    adt = prog.adts.get('archetype::Archetype')
+    names = [x['name'] for x in adt['variants'][0]['fields']]
+    fi = {n: names.index(n) for n in ('identifier', 'entity_identifiers', 'components', 'length')}
+
+    def impl_fn(name):
+        c = [f for f in prog.fns.values() if f.name == name and f.impl and f.impl['trait'] and f.impl['trait']['path'] == 'core::clone::Clone' and is_adt(f.impl['self'], 'archetype::Archetype')]
+        return c[0] if len(c) == 1 else None
+
+    def fld_of(t, who, name):
+        return pathsem.mentions(t, lambda u: pathsem.is_field_of(u, 'archetype::Archetype', fi[name]) and pathsem.mentions(u, lambda w: w == who))
+
+    def has_call(t, pred):
+        return pathsem.mentions(t, lambda u: isinstance(u, tuple) and u[0] == 'call' and pred(u[1].rsplit('::', 1)[-1]))
+    f = impl_fn('clone')
+    if f is None:
+        r.viol('C10b', 'clone/missing', '-', 'Clone::clone for Archetype not found')
+    else:
+        r.inst('Archetype::clone')
+        E = pathsem.analyse(prog, f)
+        rets = [p for p in E.paths if p.ended == 'return']
+        me = ('p', 1, f.body.local_name(1) or '')
+        rep = set()
+
+        def once(k, msg):
+            if k not in rep:
+                rep.add(k)
+                r.viol('C10b', 'clone/' + k, f.loc(), msg)
+        if E.truncated or not rets:
+            once('not-analysable', 'path enumeration cut off')
+        for p in rets:
+            v = p.ret
+            parts = None
+            if isinstance(v, tuple) and v[0] == 'agg' and v[1] == 'archetype::Archetype':
+                parts = {n: v[4][fi[n]] for n in fi}
+            elif isinstance(v, tuple) and v[0] == 'call' and v[1].endswith('Archetype::<R>::from_raw_parts') and len(v[2]) == 4:
+                parts = dict(zip(('identifier', 'entity_identifiers', 'components', 'length'), v[2]))
+            if parts is None:
+                once('not-from-source', 'a path of Archetype::clone returns an archetype that is not assembled from the source\'s identifier, identifier column, component columns and length (e.g. a fresh empty archetype): rows are lost while the world still counts them')
+                continue
+            if S(parts['length']) != ('f', ('d', me), fi['length'], 'archetype::Archetype') and not (fld_of(parts['length'], me, 'length') and pathsem.lin(parts['length']).terms and len(pathsem.lin(parts['length']).terms) == 1 and pathsem.lin(parts['length']).const == 0):
+                once('length', 'the clone\'s length is not the source\'s length')
+            if not (fld_of(parts['identifier'], me, 'identifier') and has_call(parts['identifier'], lambda n: n in ('clone', 'to_owned'))):
+                once('identifier', 'the clone\'s identifier is not a clone of the source\'s')
+            if not (fld_of(parts['entity_identifiers'], me, 'entity_identifiers') and fld_of(parts['entity_identifiers'], me, 'length') and has_call(parts['entity_identifiers'], lambda n: n in ('clone', 'to_vec', 'to_owned'))):
+                once('entity-identifiers', 'the clone\'s identifier column is not a copy of the source\'s identifier column (rebuilt with the source\'s length)')
+            if not (fld_of(parts['components'], me, 'components') and fld_of(parts['components'], me, 'length') and has_call(parts['components'], lambda n: n == 'clone_components')):
+                once('components', 'the clone\'s component columns are not produced by clone_components over the source\'s columns and length')
+    f = impl_fn('clone_from')
+    if f is None:
+        r.viol('C10b', 'clone_from/missing', '-', 'Clone::clone_from for Archetype not found')
+    else:
+        r.inst('Archetype::clone_from')
+        E = pathsem.analyse(prog, f)
+        rets = [p for p in E.paths if p.ended == 'return']
+        me = ('p', 1, f.body.local_name(1) or '')
+        src = ('p', 2, f.body.local_name(2) or '')
+        rep = set()
+
+        def once2(k, msg):
+            if k not in rep:
+                rep.add(k)
+                r.viol('C10b', 'clone_from/' + k, f.loc(), msg)
+        if E.truncated or not rets:
+            once2('not-analysable', 'path enumeration cut off')
+        for p in rets:
+            ls = [e for e in p.events if e['k'] == 'store' and pathsem.is_field_of(e['loc'], 'archetype::Archetype', fi['length']) and pathsem.mentions(e['loc'], lambda w: w == me)]
+            if not ls or S(ls[-1]['value']) != ('f', ('d', src), fi['length'], 'archetype::Archetype'):
+                once2('length', 'a path of Archetype::clone_from does not end with length = source.length')
+            walks = p.calls(lambda e: e['name'] == 'clone_from_components')
+            if len(walks) != 1:
+                once2('components', 'clone_from must walk clone_from_components exactly once on every path (found %d)' % len(walks))
+            else:
+                a_ = walks[0]['args']
+                vals = walks[0]['vals']
+                ok = len(a_) >= 4 and fld_of(vals[0], me, 'components') and fld_of(a_[1], me, 'length') and fld_of(vals[2], src, 'components') and fld_of(a_[3], src, 'length')
+                if not ok:
+                    once2('components', 'clone_from_components is not given (self.components, self.length, source.components, source.length)')
+            copies = p.calls(lambda e: e['name'] in ('clone_from', 'clone', 'extend_from_slice', 'to_vec') and any(fld_of(x, src, 'entity_identifiers') for x in list(e['args']) + list(e['vals'])))
+            if not copies:
+                once2('entity-identifiers', 'the source\'s identifier column is not copied')
+            wb = [e for e in p.events if e['k'] == 'store' and pathsem.is_field_of(e['loc'], 'archetype::Archetype', fi['entity_identifiers']) and pathsem.mentions(e['loc'], lambda w: w == me)]
+            if not wb:
+                once2('entity-identifiers', 'the identifier column\'s (pointer, capacity) are not written back after the copy')
+    return r
